@@ -112,4 +112,40 @@ theorem setProp_is_source (P : Env Val) (hn : P.setN ≤ 3) (s : St Val) (a : Se
           | none => simp
           | some f => simp <;> split <;> simp_all
 
+/-! ## The legacy `depends_on` listener -/
+
+/-- `pre_notify` (registered with `priority=True`) on a state whose `:old` slot is
+empty: drops the cache entry and parks it (`None` when there was none) in the slot. -/
+theorem legacyPre_is_source (P : Env Val) (hl : P.legacy = true) (hc : P.cached = true) (s0 : St Val) :
+    (execL P (tpc P) legacyPreNotifyProg { st := s0 }).st = popCache P s0
+    ∧ (execL P (tpc P) legacyPreNotifyProg { st := s0 }).oldSlot = some (popOld P s0) := by
+  obtain ⟨heap, cache, calls, dyn, dynObj, notes, nested⟩ := s0
+  cases cache <;>
+    simp [legacyPreNotifyProg, execL, evalVL, evalS, lookupS, lookupV, cacheKey, oldKey, condL, isUndef,
+      popCache, popOld, hl, hc]
+
+/-- `notify` with a parked entry `o`: takes it out of the slot and, unless it is
+`Undefined`, calls `trait_property_changed(name, o)`. -/
+theorem legacyNotify_is_source (P : Env Val) (t : St Val) (o : Old Val) (ho : o ≠ .undefined) :
+    (execL P (tpc P) legacyNotifyProg { st := t, oldSlot := some o }).st = Property.legacyNotify P t o
+    ∧ (execL P (tpc P) legacyNotifyProg { st := t, oldSlot := some o }).oldSlot = none := by
+  cases o with
+  | undefined => exact absurd rfl ho
+  | none =>
+    simp [legacyNotifyProg, execL, evalVL, evalS, lookupS, lookupV, cacheKey, oldKey, condL, isUndef,
+      Property.legacyNotify]
+  | val v =>
+    cases hu : P.isUndef v <;>
+      simp [legacyNotifyProg, execL, evalVL, evalS, lookupS, lookupV, cacheKey, oldKey, condL, isUndef,
+        Property.legacyNotify, hu]
+
+/-- `notify` of an uncached `depends_on` property: `trait_property_changed(name, None)`. -/
+theorem legacyNotifyUncached_is_source (P : Env Val) (t : St Val) :
+    (execL P (tpc P) legacyNotifyUncachedProg { st := t }).st = Property.legacyNotify P t .none := by
+  simp [legacyNotifyUncachedProg, execL, evalVL, Property.legacyNotify]
+
+theorem popOld_legacy_ne_undefined (P : Env Val) (hl : P.legacy = true) (s : St Val) : popOld P s ≠ .undefined := by
+  unfold popOld
+  cases P.cached <;> cases s.cache <;> simp [hl]
+
 end TraitsVerif.Model.PropL
